@@ -499,10 +499,23 @@ impl<'a> Ctl<'a> {
                 }
             }
             EnvAct::Signal(s) => {
+                let again = self.flag_stored;
                 self.proc_.signal(s);
-                self.signal_sent_at = Some(self.trace.len());
-                // atomic environment action: complete once the flag is recorded (or the process died)
-                self.wait_for("flag stored after signal", &|c: &Ctl| c.flag_stored)?;
+                if self.signal_sent_at.is_none() {
+                    self.signal_sent_at = Some(self.trace.len());
+                }
+                if again {
+                    // a further signal while the first is being acted upon: the flag is stored
+                    // already, so nothing announces that the handler has run; give it time to
+                    // (a handler that ends the process shows up as the process's exit)
+                    let t0 = Instant::now();
+                    while t0.elapsed() < Duration::from_millis(80) && self.exited().is_none() {
+                        self.pump(5);
+                    }
+                } else {
+                    // atomic environment action: complete once the flag is recorded (or the process died)
+                    self.wait_for("flag stored after signal", &|c: &Ctl| c.flag_stored)?;
+                }
             }
         }
         Ok(())
